@@ -159,3 +159,152 @@ Definition norm_doc (cmp_args : bool) (d : document) : document :=
 (* the repaired code and the code before the repair *)
 Definition merge_fields : document -> document := norm_doc true.
 Definition merge_fields_ignoring_args : document -> document := norm_doc false.
+
+(* ---- the validator's FieldSelectionMerging rule (operation_rule_field_selection_merging.go),
+   as it runs on the normalised document: one walk in document order keeping "requirements" keyed
+   by (path of response keys without inline fragments, response key).  Scalar-typed fields are
+   compared with FieldsAreEqualFlat when their enclosing types can be the same object; for every
+   other field type only the types are compared -- and only when the two field TYPES are
+   "potentially the same object" (objects of one name, interfaces).  [None] = the rule reports an
+   error. *)
+Section Overlap.
+  Variable S : schema.
+
+  Definition gkind (n : name) : option type_kind := kind_of S n.
+  Definition go_implements (o i : name) : bool :=
+    match find_type o (s_types S) with
+    | Some t => match td_kind t with
+                | KObject | KInterface => mem_bytes i (td_implements t)
+                | _ => false
+                end
+    | None => false
+    end.
+  (* NodeImplementsInterfaceFields: o has a field of every name i has *)
+  Definition go_has_fields (o i : name) : bool :=
+    match find_type o (s_types S), find_type i (s_types S) with
+    | Some to, Some ti =>
+      forallb (fun f => match find_field (fd_name f) (td_fields to) with Some _ => true | None => false end) (td_fields ti)
+    | _, _ => false
+    end.
+  Definition go_member (o u : name) : bool :=
+    match find_type u (s_types S) with Some t => mem_bytes o (td_members t) | None => false end.
+  Definition potentially_same (a b : name) : bool :=
+    match gkind a, gkind b with
+    | Some KInterface, Some KInterface => true
+    | Some KInterface, Some KObject => go_implements b a
+    | Some KObject, Some KInterface => go_implements a b
+    | Some KObject, Some KObject => bytes_eqb a b
+    | _, _ => false
+    end.
+  Definition kind_eqb (a b : option type_kind) : bool :=
+    match a, b with
+    | None, None => true
+    | Some KScalar, Some KScalar | Some KObject, Some KObject | Some KInterface, Some KInterface
+    | Some KUnion, Some KUnion | Some KEnum, Some KEnum | Some KInputObject, Some KInputObject => true
+    | _, _ => false
+    end.
+  (* TypesAreCompatibleDeep *)
+  Fixpoint go_types_compat (l r : ty) : bool :=
+    match l, r with
+    | TNamed a, TNamed b =>
+      if bytes_eqb a b then true
+      else if kind_eqb (gkind a) (gkind b) then false
+      else match gkind a, gkind b with
+           | Some KInterface, Some KObject => go_has_fields b a
+           | Some KObject, Some KInterface => go_has_fields a b
+           | Some KUnion, Some KObject => go_member b a
+           | Some KObject, Some KUnion => go_member a b
+           | _, _ => false
+           end
+    | TList a, TList b => go_types_compat a b
+    | TNonNull a, TNonNull b => go_types_compat a b
+    | _, _ => false
+    end.
+  (* FieldsAreEqualFlat(left, right, false) without @stream *)
+  Definition flat_equal (x y : selection) : bool :=
+    match x, y with
+    | SField a n args _ [], SField a' n' args' _ [] =>
+      bytes_eqb n n' && bytes_eqb (alias_bytes a) (alias_bytes a') && go_args_eqb args args'
+    | _, _ => false
+    end.
+
+  Record req := { rq_path : list name; rq_key : name; rq_sel : selection; rq_ty : ty; rq_encl : name }.
+  Definition ovstate := (list req * list req)%type.      (* scalar, non-scalar requirements *)
+  Fixpoint path_eqb (a b : list name) : bool :=
+    match a, b with
+    | [], [] => true
+    | x :: a', y :: b' => bytes_eqb x y && path_eqb a' b'
+    | _, _ => false
+    end.
+  Definition go_field (encl fname : name) : option field_def :=
+    match find_type encl (s_types S) with
+    | Some td => match td_kind td with
+                 | KObject | KInterface => find_field fname (td_fields td)
+                 | _ => None
+                 end
+    | None => None
+    end.
+  Definition is_scalar_kind (k : option type_kind) : bool := match k with Some KScalar => true | _ => false end.
+
+  Definition enter_field (path : list name) (encl : name) (s : selection) (fd : field_def) (key : name) (st : ovstate)
+    : option ovstate :=
+    let fty := fd_type fd in
+    let tn := named_of fty in
+    let me := {| rq_path := path; rq_key := key; rq_sel := s; rq_ty := fty; rq_encl := encl |} in
+    let same r := path_eqb (rq_path r) path && bytes_eqb (rq_key r) key in
+    if is_scalar_kind (gkind tn) then
+      if forallb (fun r =>
+            negb (same r) ||
+            ((negb (potentially_same (rq_encl r) encl) || flat_equal (rq_sel r) s) &&
+             go_types_compat (rq_ty r) fty)) (fst st)
+      then Some (fst st ++ [me], snd st) else None
+    else
+      if forallb (fun r =>
+            negb (same r) ||
+            negb (potentially_same (named_of (rq_ty r)) tn) || go_types_compat (rq_ty r) fty) (snd st)
+      then
+        if existsb (fun r => same r && negb (kind_eqb (gkind (named_of (rq_ty r))) (gkind tn))) (snd st)
+        then Some st else Some (fst st, snd st ++ [me])
+      else None.
+
+  Fixpoint ov_sel (path : list name) (encl : name) (s : selection) (st : ovstate) {struct s} : option ovstate :=
+    let walk :=
+      fix walk (path : list name) (encl : name) (l : list selection) (st : ovstate) : option ovstate :=
+        match l with
+        | [] => Some st
+        | x :: r => match ov_sel path encl x st with Some st' => walk path encl r st' | None => None end
+        end in
+    match s with
+    | SField a fname _ _ sels =>
+      if bytes_eqb fname s_typename then walk (path ++ [response_name a fname]) [83;116;114;105;110;103] sels st
+      else
+        match go_field encl fname with
+        | None => None
+        | Some fd =>
+          let key := response_name a fname in
+          match enter_field path encl s fd key st with
+          | None => None
+          | Some st' => walk (path ++ [key]) (named_of (fd_type fd)) sels st'
+          end
+        end
+    | SInline cond _ sels => walk path (match cond with Some c => c | None => encl end) sels st
+    | SSpread _ _ => Some st
+    end.
+  Fixpoint ov_sels (path : list name) (encl : name) (l : list selection) (st : ovstate) : option ovstate :=
+    match l with
+    | [] => Some st
+    | x :: r => match ov_sel path encl x st with Some st' => ov_sels path encl r st' | None => None end
+    end.
+  Definition op_root_name (k : opkind) : name :=
+    match k with
+    | OpQuery => [113;117;101;114;121]
+    | OpMutation => [109;117;116;97;116;105;111;110]
+    | OpSubscription => [115;117;98;115;99;114;105;112;116;105;111;110]
+    end.
+  Definition go_overlap_ok (d : document) : bool :=
+    forallb (fun o => match root_type S (op_kind o) with
+                      | Some rt => match ov_sels [op_root_name (op_kind o)] rt (op_sels o) ([], []) with
+                                   | Some _ => true | None => false end
+                      | None => false
+                      end) (doc_ops d).
+End Overlap.
